@@ -79,7 +79,9 @@ def build(recipe, model, mods):
     if "text" in recipe:
         out = []
         for pc in recipe["text"]:
-            if "intstr" in pc:
+            if "digits" in pc:
+                out.append("%0*d" % (pc["width"], int(build(pc["digits"], model, mods))))
+            elif "intstr" in pc:
                 out.append(str(int(build(pc["intstr"], model, mods))))
             elif "dec" in pc:
                 v = float(build(pc["dec"], model, mods))
